@@ -71,8 +71,8 @@ Definition inv (p0 p1 p2 : option Z) (pos : Z) (filled : bool) : Prop :=
   (pos = 2 /\ (filled = false -> p2 = None)).
 
 Section Sound.
-  Variables (L : token -> Z) (STOP : Z).
-  Notation strict := true.
+  Variables (L : token -> Z) (STOP : Z) (strict : bool).
+  Notation ext := (negb strict).
 
   Lemma index_loop_sound : forall f p0 p1 p2 pos st filled q0 q1 q2 pos' st',
     index_loop L STOP strict f p0 p1 p2 pos st = Ok (q0, q1, q2, pos', st') ->
@@ -115,22 +115,22 @@ Section Sound.
   Lemma gtail_bracket es : gtail CloseBracket (map (pair false) es) = mlist_tail es.
   Proof. induction es as [|x r IH]; cbn [gtail mlist_tail map]; [reflexivity|]. unfold flat_arg. cbn [fst snd app]. now rewrite IH. Qed.
 
-  Notation expr' := (expr L STOP true).
-  Notation expr_loop' := (expr_loop L STOP true).
-  Notation nud' := (nud L STOP true).
-  Notation parse_kvps' := (parse_kvps L STOP true).
-  Notation parse_kvp' := (parse_kvp L STOP true).
-  Notation led' := (led L STOP true).
-  Notation parse_filter' := (parse_filter L STOP true).
-  Notation parse_flatten' := (parse_flatten L STOP true).
-  Notation parse_comparator' := (parse_comparator L STOP true).
-  Notation parse_dot' := (parse_dot L STOP true).
-  Notation projection_rhs' := (projection_rhs L STOP true).
-  Notation parse_wildcard_index' := (parse_wildcard_index L STOP true).
-  Notation parse_wildcard_values' := (parse_wildcard_values L STOP true).
-  Notation parse_index' := (parse_index L STOP true).
-  Notation parse_multi_list' := (parse_multi_list L STOP true).
-  Notation parse_list' := (parse_list L STOP true).
+  Notation expr' := (expr L STOP strict).
+  Notation expr_loop' := (expr_loop L STOP strict).
+  Notation nud' := (nud L STOP strict).
+  Notation parse_kvps' := (parse_kvps L STOP strict).
+  Notation parse_kvp' := (parse_kvp L STOP strict).
+  Notation led' := (led L STOP strict).
+  Notation parse_filter' := (parse_filter L STOP strict).
+  Notation parse_flatten' := (parse_flatten L STOP strict).
+  Notation parse_comparator' := (parse_comparator L STOP strict).
+  Notation parse_dot' := (parse_dot L STOP strict).
+  Notation projection_rhs' := (projection_rhs L STOP strict).
+  Notation parse_wildcard_index' := (parse_wildcard_index L STOP strict).
+  Notation parse_wildcard_values' := (parse_wildcard_values L STOP strict).
+  Notation parse_index' := (parse_index L STOP strict).
+  Notation parse_multi_list' := (parse_multi_list L STOP strict).
+  Notation parse_list' := (parse_list L STOP strict).
 
   Definition dot_start (t : token) : bool :=
     match t with TIdentifier _ | TQuotedIdentifier _ | TStar | TLbrace => true | _ => false end.
@@ -142,57 +142,60 @@ Section Sound.
     end.
   (** the leftmost constituent is of the category its first token(s) announce *)
   Definition start_ok (st : pst) (c : cst) : Prop :=
-    (dot_start (peek st 0) = true -> dot_ok (head c) = true) /\ (brk_start st = true -> brk_ok (head c) = true).
+    (dot_start (peek st 0) = true -> dot_ok (head c) = true) /\ (brk_start st = true -> brk_ok (head c) = true) /\
+    (peek st 0 = TAmpersand -> dotx_ok (head c) = true) /\ (peek st 0 = TLbracket -> brkx_ok (head c) = true).
 
   Definition P_expr f := forall rbp st t st', expr' f rbp st = Ok (t, st') ->
-    exists c, toks st = flat c ++ toks st' /\ erase c = t /\ wf c /\ start_ok st c /\ prec L rbp c.
-  Definition P_loop f := forall rbp lft st t st' cl, erase cl = lft -> wf cl -> prec L rbp cl -> expr_loop' f rbp lft st = Ok (t, st') ->
-    exists c w, toks st = w ++ toks st' /\ flat c = flat cl ++ w /\ erase c = t /\ wf c /\ head c = head cl /\ prec L rbp c.
+    exists c, toks st = flat c ++ toks st' /\ erase c = t /\ (wfb ext) c /\ start_ok st c /\ prec L rbp c.
+  Definition P_loop f := forall rbp lft st t st' cl, erase cl = lft -> (wfb ext) cl -> prec L rbp cl -> expr_loop' f rbp lft st = Ok (t, st') ->
+    exists c w, toks st = w ++ toks st' /\ flat c = flat cl ++ w /\ erase c = t /\ (wfb ext) c /\ head c = head cl /\ prec L rbp c.
   Definition P_nud f := forall st t st', nud' f st = Ok (t, st') ->
-    exists c, toks st = flat c ++ toks st' /\ erase c = t /\ wf c /\ start_ok st c /\ (forall rbp, prec L rbp c).
+    exists c, toks st = flat c ++ toks st' /\ erase c = t /\ (wfb ext) c /\ start_ok st c /\ (forall rbp, prec L rbp c).
   Definition P_kvps f := forall acc st t st', parse_kvps' f acc st = Ok (t, st') ->
     exists items, items <> [] /\ toks st = hash_items items ++ toks st' /\ t = AMultiHash (rev acc ++ map erase_kv items) /\
-                  Forall (fun kv : bool * str * cst => wf (snd kv)) items /\ Forall (fun kv : bool * str * cst => prec L 0 (snd kv)) items.
+                  Forall (fun kv : bool * str * cst => (wfb ext) (snd kv)) items /\ Forall (fun kv : bool * str * cst => prec L 0 (snd kv)) items.
   Definition P_kvp f := forall st k e st', parse_kvp' f st = Ok ((k, e), st') ->
-    exists q x, toks st = key_tok q k :: TColon :: flat x ++ toks st' /\ erase x = e /\ wf x /\ prec L 0 x.
-  Definition P_led f := forall lft st t st' cl, erase cl = lft -> wf cl -> inner L cl -> led' f lft st = Ok (t, st') ->
-    exists c w, toks st = w ++ toks st' /\ flat c = flat cl ++ w /\ erase c = t /\ wf c /\ head c = head cl /\
+    exists q x, toks st = key_tok q k :: TColon :: flat x ++ toks st' /\ erase x = e /\ (wfb ext) x /\ prec L 0 x.
+  Definition P_led f := forall lft st t st' cl, erase cl = lft -> (wfb ext) cl -> inner L cl -> led' f lft st = Ok (t, st') ->
+    exists c w, toks st = w ++ toks st' /\ flat c = flat cl ++ w /\ erase c = t /\ (wfb ext) c /\ head c = head cl /\
                 spine_ops c = spine_ops cl ++ [peek st 0] /\ inner L c.
   Definition P_filter f := forall lhs st t st', parse_filter' f lhs st = Ok (t, st') ->
-    exists p k, toks st = flat p ++ TRbracket :: flatk k ++ toks st' /\ t = AProjection lhs (ACondition (erase p) (erasek k)) /\ wf p /\ wfk k /\
+    exists p k, toks st = flat p ++ TRbracket :: flatk k ++ toks st' /\ t = AProjection lhs (ACondition (erase p) (erasek k)) /\ (wfb ext) p /\ (wfkb ext) k /\
                 prec L 0 p /\ innerk L (L TFilter) k.
   Definition P_flatten f := forall lhs st t st', parse_flatten' f lhs st = Ok (t, st') ->
-    exists k, toks st = flatk k ++ toks st' /\ t = AProjection (AFlatten lhs) (erasek k) /\ wfk k /\ innerk L (L TFlatten) k.
+    exists k, toks st = flatk k ++ toks st' /\ t = AProjection (AFlatten lhs) (erasek k) /\ (wfkb ext) k /\ innerk L (L TFlatten) k.
   Definition P_cmp f := forall c lhs st t st', parse_comparator' f c lhs st = Ok (t, st') ->
-    exists r, toks st = flat r ++ toks st' /\ t = AComparison c lhs (erase r) /\ wf r /\ prec L (L TEq) r.
+    exists r, toks st = flat r ++ toks st' /\ t = AComparison c lhs (erase r) /\ (wfb ext) r /\ prec L (L TEq) r.
   Definition P_dot f := forall bp st t st', parse_dot' f bp st = Ok (t, st') ->
-    exists d, toks st = flat d ++ toks st' /\ erase d = t /\ wf d /\ dot_ok (head d) = true /\ prec L bp d.
+    exists d, toks st = flat d ++ toks st' /\ erase d = t /\ (wfb ext) d /\ (if ext then dotx_ok else dot_ok) (head d) = true /\ prec L bp d.
   Definition P_prhs f := forall bp st t st', projection_rhs' f bp st = Ok (t, st') ->
-    exists k, toks st = flatk k ++ toks st' /\ erasek k = t /\ wfk k /\ innerk L bp k.
+    exists k, toks st = flatk k ++ toks st' /\ erasek k = t /\ (wfkb ext) k /\ innerk L bp k.
   Definition P_wi f := forall lhs st t st', parse_wildcard_index' f lhs st = Ok (t, st') ->
-    exists k, toks st = TRbracket :: flatk k ++ toks st' /\ t = AProjection lhs (erasek k) /\ wfk k /\ innerk L (L TStar) k.
+    exists k, toks st = TRbracket :: flatk k ++ toks st' /\ t = AProjection lhs (erasek k) /\ (wfkb ext) k /\ innerk L (L TStar) k.
   Definition P_wv f := forall lhs st t st', parse_wildcard_values' f lhs st = Ok (t, st') ->
-    exists k, toks st = flatk k ++ toks st' /\ t = AProjection (AObjectValues lhs) (erasek k) /\ wfk k /\ innerk L (L TStar) k.
+    exists k, toks st = flatk k ++ toks st' /\ t = AProjection (AObjectValues lhs) (erasek k) /\ (wfkb ext) k /\ innerk L (L TStar) k.
   Definition P_index f := forall st t st', parse_index' f st = Ok (t, st') ->
     (exists n, toks st = TNumber n :: TRbracket :: toks st' /\ t = AIndex n) \/
-    (exists off sl k, toks st = slice_toks sl ++ TRbracket :: flatk k ++ toks st' /\ t = AProjection (slice_ast off sl) (erasek k) /\ wfk k /\ innerk L (L TStar) k).
+    (exists off sl k, toks st = slice_toks sl ++ TRbracket :: flatk k ++ toks st' /\ t = AProjection (slice_ast off sl) (erasek k) /\ (wfkb ext) k /\ innerk L (L TStar) k).
   Definition P_mlist f := forall st t st', parse_multi_list' f st = Ok (t, st') ->
-    exists e es, toks st = flat e ++ mlist_tail es ++ toks st' /\ t = AMultiList (erase e :: map erase es) /\ wf e /\ Forall wf es /\ prec L 0 e /\ Forall (prec L 0) es.
+    exists e es, toks st = flat e ++ mlist_tail es ++ toks st' /\ t = AMultiList (erase e :: map erase es) /\ (wfb ext) e /\ Forall (wfb ext) es /\ prec L 0 e /\ Forall (prec L 0) es.
   Definition P_list f := forall c acc st l st', parse_list' f c acc st = Ok (l, st') ->
     exists items, toks st = glist c items ++ toks st' /\ l = rev acc ++ map erase_arg items /\
                   (c = CloseBracket -> Forall (fun a => fst a = false) items) /\
                   (is_closing c (peek st 0) = false -> items <> []) /\
                   (is_closing c (peek st 0) = true -> items = []) /\
-                  Forall (fun a : bool * cst => wf (snd a)) items /\ Forall (arg_prec L) items.
+                  Forall (fun a : bool * cst => (wfb ext) (snd a)) items /\ Forall (arg_prec L) items.
 
   Definition all_sound f :=
     P_expr f /\ P_loop f /\ P_nud f /\ P_kvps f /\ P_kvp f /\ P_led f /\ P_filter f /\ P_flatten f /\ P_cmp f /\
     P_dot f /\ P_prhs f /\ P_wi f /\ P_wv f /\ P_index f /\ P_mlist f /\ P_list f.
 
+  Ltac unfold_P := unfold P_expr, P_loop, P_nud, P_kvps, P_kvp, P_led, P_filter, P_flatten, P_cmp, P_dot, P_prhs, P_wi, P_wv, P_index, P_mlist, P_list in *.
+
   Ltac refold_in H :=
     fold expr' in H; fold expr_loop' in H; fold nud' in H; fold parse_kvps' in H; fold parse_kvp' in H; fold led' in H;
     fold parse_filter' in H; fold parse_flatten' in H; fold parse_comparator' in H; fold parse_dot' in H; fold projection_rhs' in H;
-    fold parse_wildcard_index' in H; fold parse_wildcard_values' in H; fold parse_index' in H; fold (index_loop L STOP true) in H;
+    fold parse_wildcard_index' in H; fold parse_wildcard_values' in H; fold parse_index' in H; fold (index_loop L STOP strict) in H;
     fold parse_multi_list' in H; fold parse_list' in H.
 
   (** split [H : bind G k = Ok _] into [E : G = Ok (x, st1)] and [H : k (x, st1) = Ok _] *)
@@ -299,15 +302,16 @@ Section Sound.
     - adv_in H. injection H as <- <-. pose proof Ec as Ec'. apply is_closing_true in Ec'. rewrite Ec' in Ha. specialize (Ha (close_not_eof c)).
       exists []. split; [rewrite Ha; reflexivity|]. split; [now rewrite app_nil_r|]. split; [intros _; constructor|]. split; [discriminate|]. split; [reflexivity|]. split; constructor.
     - run H e st1 Ee.
-      assert (Hel : exists a, toks st = flat_arg a ++ toks st1 /\ erase_arg a = e /\ (c = CloseBracket -> fst a = false) /\ wf (snd a) /\ arg_prec L a).
+      assert (Hel : exists a, toks st = flat_arg a ++ toks st1 /\ erase_arg a = e /\ (c = CloseBracket -> fst a = false) /\ (wfb ext) (snd a) /\ arg_prec L a).
       { destruct c.
         - apply Hexpr in Ee as (x & Hx & Hex & Hwx & _ & Hpx). exists (false, x). unfold flat_arg, erase_arg, arg_prec. cbn [fst snd app]. auto.
-        - destruct (peek st 0) eqn:Ep;
-            try (apply Hexpr in Ee as (x & Hx & Hex & Hwx & _ & Hpx); exists (false, x); unfold flat_arg, erase_arg, arg_prec; cbn [fst snd app];
-                 split; [exact Hx|split; [exact Hex|split; [discriminate|split; [exact Hwx|exact Hpx]]]]).
-          adv_in Ee. rewrite Ep in Ha. specialize (Ha ltac:(discriminate)). run Ee rhs st0 Er. apply Hexpr in Er as (x & Hx & Hex & Hwx & _ & Hpx).
-          injection Ee as <- <-. exists (true, x). unfold flat_arg, erase_arg, arg_prec. cbn [fst snd]. split; [rewrite Ha, Hx; reflexivity|].
-          split; [now rewrite Hex|]. split; [discriminate|]. split; [exact Hwx|exact Hpx]. }
+        - unfold_P; destruct strict; cbn [negb] in *; destruct (peek st 0) eqn:Ep;
+            first
+              [ apply Hexpr in Ee as (x & Hx & Hex & Hwx & _ & Hpx); exists (false, x); unfold flat_arg, erase_arg, arg_prec; cbn [fst snd app];
+                split; [exact Hx|split; [exact Hex|split; [discriminate|split; [exact Hwx|exact Hpx]]]]
+              | adv_in Ee; rewrite Ep in Ha; specialize (Ha ltac:(discriminate)); run Ee rhs st0 Er; apply Hexpr in Er as (x & Hx & Hex & Hwx & _ & Hpx);
+                injection Ee as <- <-; exists (true, x); unfold flat_arg, erase_arg, arg_prec; cbn [fst snd]; split; [rewrite Ha, Hx; reflexivity|];
+                split; [now rewrite Hex|]; split; [discriminate|]; split; [exact Hwx|exact Hpx] ]. }
       destruct Hel as (a & Hta & Hea & Hfa & Hwa & Hpa).
       destruct (tok_is_comma (peek st1 0)) eqn:Ecm.
       + adv_in H. use_peek. destruct (is_closing c (peek p 0)) eqn:Ec2; dead.
@@ -346,36 +350,53 @@ Section Sound.
   Lemma sound_dot f : all_sound f -> P_dot (S f).
   Proof.
     intros (Hexpr & Hloop & _ & _ & _ & _ & _ & _ & _ & _ & _ & _ & _ & _ & Hmlist & _). intros bp st t st' H.
-    cbn [parse_dot] in H. refold_in H.
-    destruct (peek st 0) eqn:Ep; dead;
-      try (apply Hexpr in H as (c & Hc & Hec & Hwc & (Hs & _) & Hpc); exists c; split; [exact Hc|split; [exact Hec|split; [exact Hwc|split; [apply Hs; rewrite Ep; reflexivity|exact Hpc]]]]).
-    adv_in H. rewrite Ep in Ha. specialize (Ha ltac:(discriminate)). run H lst st2 Em. apply Hmlist in Em as (e & es & Hm & Hl & Hwe & Hwes & Hpe & Hpes).
-    apply (Hloop bp lst st2 t st' (CMList e es)) in H as (c & w & Hw & Hf & He & Hwc & Hh & Hpc);
-      [|cbn [erase]; now rewrite Hl|apply wf_mlist; auto|split; [constructor|apply inner_mlist; auto]].
-    exists c. split; [rewrite Hf, flat_mlist, Ha, Hm, Hw; listeq|]. split; [exact He|]. split; [exact Hwc|]. split; [rewrite Hh; reflexivity|exact Hpc].
+    cbn [parse_dot] in H. refold_in H. unfold_P. destruct strict; cbn [negb] in *.
+    - (* the grammar: a multi-select list is continued like any other operand *)
+      destruct (peek st 0) eqn:Ep; dead;
+        try (apply Hexpr in H as (c & Hc & Hec & Hwc & (Hs & _) & Hpc); exists c; split; [exact Hc|split; [exact Hec|split; [exact Hwc|split; [apply Hs; rewrite Ep; reflexivity|exact Hpc]]]]).
+      adv_in H. rewrite Ep in Ha. specialize (Ha ltac:(discriminate)). run H lst st2 Em. apply Hmlist in Em as (e & es & Hm & Hl & Hwe & Hwes & Hpe & Hpes).
+      apply (Hloop bp lst st2 t st' (CMList e es)) in H as (c & w & Hw & Hf & He & Hwc & Hh & Hpc);
+        [|cbn [erase]; now rewrite Hl|apply wf_mlist; auto|split; [constructor|apply inner_mlist; auto]].
+      exists c. split; [rewrite Hf, flat_mlist, Ha, Hm, Hw; listeq|]. split; [exact He|]. split; [exact Hwc|]. split; [rewrite Hh; reflexivity|exact Hpc].
+    - (* the code: the list ends the operand; [&] is an operand *)
+      destruct (peek st 0) eqn:Ep; dead;
+        try (apply Hexpr in H as (c & Hc & Hec & Hwc & (Hs & _ & Hs3 & _) & Hpc); exists c; split; [exact Hc|split; [exact Hec|split; [exact Hwc|split; [|exact Hpc]]]];
+             first [apply dot_ok_x; apply Hs; rewrite Ep; reflexivity | apply Hs3; exact Ep]).
+      adv_in H. rewrite Ep in Ha. specialize (Ha ltac:(discriminate)). apply Hmlist in H as (e & es & Hm & Hl & Hwe & Hwes & Hpe & Hpes).
+      exists (CMList e es). split; [rewrite flat_mlist, Ha, Hm; listeq|]. split; [cbn [erase]; now rewrite Hl|]. split; [apply wf_mlist; auto|].
+      split; [reflexivity|]. split; [constructor|apply inner_mlist; auto].
   Qed.
 
   Lemma sound_prhs f : all_sound f -> P_prhs (S f).
   Proof.
     intros (Hexpr & _ & _ & _ & _ & _ & _ & _ & _ & Hdot & _). intros bp st t st' H.
-    cbn [projection_rhs] in H. refold_in H.
-    destruct (peek st 0) eqn:Ep;
-      try (destruct (L _ <? STOP); dead; injection H as <- <-; exists KNone; split; [reflexivity|split; [reflexivity|split; exact I]]).
-    - (* dot *) adv_in H. rewrite Ep in Ha. specialize (Ha ltac:(discriminate)). apply Hdot in H as (d & Hd & Hed & Hwd & Hok & Hpd).
-      exists (KDot d). split; [rewrite Ha, Hd; reflexivity|]. split; [exact Hed|]. split; [split; assumption|exact Hpd].
-    - (* filter *) apply Hexpr in H as (x & Hx & Hex & Hwx & (_ & Hb) & Hpx). exists (KExpr x). split; [exact Hx|]. split; [exact Hex|]. split; [|exact Hpx].
-      split; [exact Hwx|]. apply Hb. unfold brk_start. now rewrite Ep.
-    - (* bracket *)
-      destruct (peek st 1) eqn:Ep1; dead; try (destruct (tok_is_rbracket (peek st 2)) eqn:Er2; dead);
-        (apply Hexpr in H as (x & Hx & Hex & Hwx & (_ & Hb) & Hpx); exists (KExpr x); split; [exact Hx|]; split; [exact Hex|]; split; [|exact Hpx];
-         split; [exact Hwx|]; apply Hb; unfold brk_start; rewrite Ep, Ep1; try exact Er2; reflexivity).
+    cbn [projection_rhs] in H. refold_in H. unfold_P. destruct strict; cbn [negb] in *.
+    - destruct (peek st 0) eqn:Ep;
+        try (destruct (L _ <? STOP); dead; injection H as <- <-; exists KNone; split; [reflexivity|split; [reflexivity|split; exact I]]).
+      + (* dot *) adv_in H. rewrite Ep in Ha. specialize (Ha ltac:(discriminate)). apply Hdot in H as (d & Hd & Hed & Hwd & Hok & Hpd).
+        exists (KDot d). split; [rewrite Ha, Hd; reflexivity|]. split; [exact Hed|]. split; [split; assumption|exact Hpd].
+      + (* filter *) apply Hexpr in H as (x & Hx & Hex & Hwx & (_ & Hb & _) & Hpx). exists (KExpr x). split; [exact Hx|]. split; [exact Hex|]. split; [|exact Hpx].
+        split; [exact Hwx|]. apply Hb. unfold brk_start. now rewrite Ep.
+      + (* bracket *)
+        destruct (peek st 1) eqn:Ep1; dead; try (destruct (tok_is_rbracket (peek st 2)) eqn:Er2; dead);
+          (apply Hexpr in H as (x & Hx & Hex & Hwx & (_ & Hb & _) & Hpx); exists (KExpr x); split; [exact Hx|]; split; [exact Hex|]; split; [|exact Hpx];
+           split; [exact Hwx|]; apply Hb; unfold brk_start; rewrite Ep, Ep1; try exact Er2; reflexivity).
+    - destruct (peek st 0) eqn:Ep;
+        try (destruct (L _ <? STOP); dead; injection H as <- <-; exists KNone; split; [reflexivity|split; [reflexivity|split; exact I]]).
+      + (* dot *) adv_in H. rewrite Ep in Ha. specialize (Ha ltac:(discriminate)). apply Hdot in H as (d & Hd & Hed & Hwd & Hok & Hpd).
+        exists (KDot d). split; [rewrite Ha, Hd; reflexivity|]. split; [exact Hed|]. split; [split; assumption|exact Hpd].
+      + (* filter *) apply Hexpr in H as (x & Hx & Hex & Hwx & (_ & Hb & _) & Hpx). exists (KExpr x). split; [exact Hx|]. split; [exact Hex|]. split; [|exact Hpx].
+        split; [exact Hwx|]. apply brk_ok_x. apply Hb. unfold brk_start. now rewrite Ep.
+      + (* any bracket *)
+        apply Hexpr in H as (x & Hx & Hex & Hwx & (_ & _ & _ & Hb4) & Hpx). exists (KExpr x). split; [exact Hx|]. split; [exact Hex|]. split; [|exact Hpx].
+        split; [exact Hwx|]. apply Hb4. exact Ep.
   Qed.
 
   Lemma sound_index f : all_sound f -> P_index (S f).
   Proof.
     intros (_ & _ & _ & _ & _ & _ & _ & _ & _ & _ & Hprhs & _). intros st t st' H.
     cbn [parse_index] in H. refold_in H.
-    destruct (index_loop L STOP true f None None None 0 st) as [[[[[q0 q1] q2] pos'] st1]|?| | |] eqn:Ei; cbn [bind] in H; dead.
+    destruct (index_loop L STOP strict f None None None 0 st) as [[[[[q0 q1] q2] pos'] st1]|?| | |] eqn:Ei; cbn [bind] in H; dead.
     apply (index_loop_sound f None None None 0 st false) in Ei; [|left; repeat split; reflexivity|discriminate].
     destruct Ei as (w & Hw & Hf & fl & Hinv). unfold fin at 1 in Hf. cbn [Z.eqb optnum app] in Hf. subst w.
     destruct (pos' =? 0) eqn:E0.
@@ -397,19 +418,19 @@ Section Sound.
     let Hpr := fresh "Hpr" in
     run H rhs st2 Er; apply Hexpr in Er as (r & Hr & Her & Hwr & _ & Hpr); injection H as <- <-;
     exists (CBin o cl r), (binop_tok o :: flat r); split; [rewrite Ha, Hr; listeq|]; split; [reflexivity|];
-    split; [cbn [erase bin_ast]; rewrite Hcl, Her; reflexivity|]; split; [cbn [wf]; auto|]; split; [reflexivity|];
+    split; [cbn [erase bin_ast]; rewrite Hcl, Her; reflexivity|]; split; [cbn [wfb wfkb]; auto|]; split; [reflexivity|];
     split; [reflexivity|]; cbn [inner rbp_of]; destruct Hpr; auto.
   Ltac led_cmp c0 H Ha Hcl Hwl Hcmp cl :=
     let r := fresh "r" in let Hr := fresh "Hr" in let Ht := fresh "Ht" in let Hwr := fresh "Hwr" in
     let Hpr := fresh "Hpr" in
     apply Hcmp in H as (r & Hr & Ht & Hwr & Hpr);
     exists (CBin (BCmp c0) cl r), (binop_tok (BCmp c0) :: flat r); split; [rewrite Ha, Hr; listeq|]; split; [reflexivity|];
-    split; [cbn [erase bin_ast]; rewrite Hcl, Ht; reflexivity|]; split; [cbn [wf]; auto|]; split; [reflexivity|];
+    split; [cbn [erase bin_ast]; rewrite Hcl, Ht; reflexivity|]; split; [cbn [wfb wfkb]; auto|]; split; [reflexivity|];
     split; [reflexivity|]; cbn [inner rbp_of]; destruct Hpr; auto.
 
   Lemma sound_led f : all_sound f -> P_led (S f).
   Proof.
-    intros (Hexpr & _ & _ & _ & _ & _ & Hfilter & Hflatten & Hcmp & Hdot & _ & Hwi & Hwv & Hindex & _). intros lft st t st' cl Hcl Hwl Hil H.
+    intros (Hexpr & _ & _ & _ & _ & _ & Hfilter & Hflatten & Hcmp & Hdot & _ & Hwi & Hwv & Hindex & _ & Hlist). intros lft st t st' cl Hcl Hwl Hil H.
     cbn [led] in H. refold_in H. adv_in H. destruct (peek st 0) eqn:Ep; dead; specialize (Ha ltac:(discriminate)).
     all: try match type of Ep with
              | _ = TOr => led_bin BOr H Ha Hcl Hwl Hexpr cl
@@ -425,56 +446,65 @@ Section Sound.
     - (* dot *)
       destruct (tok_is_star (peek p 0)) eqn:Es.
       + adv_in H. use_peek. apply Hwv in H as (k & Hk & Ht & Hwk & Hik). exists (CDotStar cl k), (TDot :: TStar :: flatk k).
-        split; [rewrite Ha, Ha0, Hk; listeq|]. split; [reflexivity|]. split; [cbn [erase]; now rewrite Hcl, Ht|]. split; [cbn [wf]; auto|].
+        split; [rewrite Ha, Ha0, Hk; listeq|]. split; [reflexivity|]. split; [cbn [erase]; now rewrite Hcl, Ht|]. split; [cbn [wfb wfkb]; auto|].
         split; [reflexivity|]. split; [reflexivity|cbn [inner]; auto].
       + run H rhs st2 Ed. apply Hdot in Ed as (d & Hd & Hed & Hwd & Hok & Hpd). injection H as <- <-. exists (CDot cl d), (TDot :: flat d).
-        split; [rewrite Ha, Hd; listeq|]. split; [reflexivity|]. split; [cbn [erase]; now rewrite Hcl, Hed|]. split; [cbn [wf]; auto|].
+        split; [rewrite Ha, Hd; listeq|]. split; [reflexivity|]. split; [cbn [erase]; now rewrite Hcl, Hed|]. split; [cbn [wfb wfkb]; auto|].
         split; [reflexivity|]. split; [reflexivity|cbn [inner]; destruct Hpd; auto].
     - (* flatten *)
       apply Hflatten in H as (k & Hk & Ht & Hwk & Hik). exists (CFlatten cl k), (TFlatten :: flatk k).
-      split; [rewrite Ha, Hk; listeq|]. split; [reflexivity|]. split; [cbn [erase]; now rewrite Hcl, Ht|]. split; [cbn [wf]; auto|].
+      split; [rewrite Ha, Hk; listeq|]. split; [reflexivity|]. split; [cbn [erase]; now rewrite Hcl, Ht|]. split; [cbn [wfb wfkb]; auto|].
       split; [reflexivity|]. split; [reflexivity|cbn [inner]; auto].
     - (* filter *)
       apply Hfilter in H as (p0 & k & Hk & Ht & Hwp & Hwk & Hpp & Hik). exists (CFilter cl p0 k), (TFilter :: flat p0 ++ TRbracket :: flatk k).
-      split; [rewrite Ha, Hk; listeq|]. split; [reflexivity|]. split; [cbn [erase]; now rewrite Hcl, Ht|]. split; [cbn [wf]; auto|].
+      split; [rewrite Ha, Hk; listeq|]. split; [reflexivity|]. split; [cbn [erase]; now rewrite Hcl, Ht|]. split; [cbn [wfb wfkb]; auto|].
       split; [reflexivity|]. split; [reflexivity|cbn [inner]; destruct Hpp; auto].
     - (* bracket *)
       assert (Hix : forall idx st2, parse_index' f p = Ok (idx, st2) -> Ok (ASubexpr lft idx, st2) = Ok (t, st') ->
-                exists c w, toks st = w ++ toks st' /\ flat c = flat cl ++ w /\ erase c = t /\ wf c /\ head c = head cl /\
+                exists c w, toks st = w ++ toks st' /\ flat c = flat cl ++ w /\ erase c = t /\ (wfb ext) c /\ head c = head cl /\
                             spine_ops c = spine_ops cl ++ [TLbracket] /\ inner L c).
       { intros idx st2 Ei E. injection E as <- <-. apply Hindex in Ei as [(n0 & Hn & Ht)|(off & sl & k & Hs & Ht & Hwk & Hik)].
         - exists (CIndex cl n0), [TLbracket; TNumber n0; TRbracket]. split; [rewrite Ha, Hn; listeq|]. split; [reflexivity|].
           split; [cbn [erase]; now rewrite Hcl, Ht|]. split; [exact Hwl|]. split; [reflexivity|]. split; [reflexivity|exact Hil].
         - exists (CSlice cl off sl k), (TLbracket :: slice_toks sl ++ TRbracket :: flatk k). split; [rewrite Ha, Hs; listeq|]. split; [reflexivity|].
-          split; [cbn [erase]; now rewrite Hcl, Ht|]. split; [cbn [wf]; auto|]. split; [reflexivity|]. split; [reflexivity|cbn [inner]; auto]. }
+          split; [cbn [erase]; now rewrite Hcl, Ht|]. split; [cbn [wfb wfkb]; auto|]. split; [reflexivity|]. split; [reflexivity|cbn [inner]; auto]. }
       destruct (peek p 0) eqn:Ep1; dead.
       + run H idx st2 Ei. exact (Hix _ _ eq_refl H).
       + adv_in H. use_peek. apply Hwi in H as (k & Hk & Ht & Hwk & Hik). exists (CWild cl k), (TLbracket :: TStar :: TRbracket :: flatk k).
-        split; [rewrite Ha, Ha0, Hk; listeq|]. split; [reflexivity|]. split; [cbn [erase]; now rewrite Hcl, Ht|]. split; [cbn [wf]; auto|].
+        split; [rewrite Ha, Ha0, Hk; listeq|]. split; [reflexivity|]. split; [cbn [erase]; now rewrite Hcl, Ht|]. split; [cbn [wfb wfkb]; auto|].
         split; [reflexivity|]. split; [reflexivity|cbn [inner]; auto].
       + run H idx st2 Ei. exact (Hix _ _ eq_refl H).
+    - (* parenthesis after an operand: only the code, only on an operand that denotes a field *)
+      unfold_P. destruct strict; cbn [negb] in *; dead. destruct lft; dead. run H args st2 El. injection H as <- <-.
+      apply Hlist in El as (items & Hi & Hl & _ & _ & _ & Hwi' & Hpi').
+      exists (CCallOn cl o name items), (TLparen :: glist CloseParen items). split; [rewrite Ha, Hi; listeq|]. split.
+      { rewrite flat_callon. destruct items as [|a r]; cbn [glist]; [reflexivity|]. now rewrite gtail_paren. }
+      split; [rewrite erase_callon, Hl; reflexivity|]. split; [apply wf_callon; auto|]. split; [reflexivity|]. split; [reflexivity|].
+      apply inner_callon. auto.
   Qed.
 
   (** [start_ok] for a constituent whose first token is neither a dot-operand start nor a bracket specifier start, or whose head is right anyway *)
   Ltac nudp := intros ?; split; [constructor|].
 
   Ltac start_tac Ep :=
-    unfold start_ok, brk_start; rewrite Ep; cbn [dot_start head dot_ok brk_ok]; split; intros Hs; try reflexivity; try discriminate Hs.
+    unfold start_ok, brk_start; rewrite Ep; cbn [dot_start head dot_ok brk_ok dotx_ok brkx_ok orb]; (split; [|split; [|split]]); intros Hs; try reflexivity; try discriminate Hs.
 
   Lemma sound_nud f : all_sound f -> P_nud (S f).
   Proof.
     intros (Hexpr & _ & _ & Hkvps & _ & _ & Hfilter & Hflatten & _ & _ & _ & Hwi & Hwv & Hindex & Hmlist & Hlist). intros st t st' H.
     cbn [nud] in H. refold_in H. adv_in H. destruct (peek st 0) eqn:Ep; dead; specialize (Ha ltac:(discriminate)).
     - (* identifier, possibly a call *)
-      destruct (peek p 0) eqn:Ep1;
-        try (injection H as <- <-; exists (CIdent s); split; [rewrite Ha; reflexivity|split; [reflexivity|split; [exact I|split; [start_tac Ep|nudp; exact I]]]]).
-      adv_in H. use_peek. run H args st3 El. injection H as <- <-. apply Hlist in El as (items & Hi & Hl & _ & _ & _ & Hwi' & Hpi').
-      exists (CCall o0 s items). split; [|split; [|split; [|split]]].
-      + rewrite flat_call, Ha, Ha0, Hi. destruct items as [|a r]; cbn [glist]; [reflexivity|]. rewrite gtail_paren. listeq.
-      + rewrite erase_call, Hl. reflexivity.
-      + apply wf_call. exact Hwi'.
-      + start_tac Ep.
-      + nudp. apply inner_call. exact Hpi'.
+      unfold_P. destruct strict; cbn [negb] in *.
+      + destruct (peek p 0) eqn:Ep1;
+          try (injection H as <- <-; exists (CIdent s); split; [rewrite Ha; reflexivity|split; [reflexivity|split; [exact I|split; [start_tac Ep|nudp; exact I]]]]).
+        adv_in H. use_peek. run H args st3 El. injection H as <- <-. apply Hlist in El as (items & Hi & Hl & _ & _ & _ & Hwi' & Hpi').
+        exists (CCall o0 s items). split; [|split; [|split; [|split]]].
+        * rewrite flat_call, Ha, Ha0, Hi. destruct items as [|a r]; cbn [glist]; [reflexivity|]. rewrite gtail_paren. listeq.
+        * rewrite erase_call, Hl. reflexivity.
+        * apply wf_call. exact Hwi'.
+        * start_tac Ep.
+        * nudp. apply inner_call. exact Hpi'.
+      + injection H as <- <-. exists (CIdent s). split; [rewrite Ha; reflexivity|split; [reflexivity|split; [exact I|split; [start_tac Ep|nudp; exact I]]]].
     - (* quoted identifier *)
       destruct (peek p 0) eqn:Ep1; dead;
         (injection H as <- <-; exists (CQIdent s); split; [rewrite Ha; reflexivity|split; [reflexivity|split; [exact I|split; [start_tac Ep|nudp; exact I]]]]).
@@ -486,30 +516,34 @@ Section Sound.
       apply Hflatten in H as (k & Hk & Ht & Hwk & Hik). exists (CFlattenP k). split; [rewrite Ha, Hk; reflexivity|]. split; [now rewrite Ht|]. split; [exact Hwk|]. split; [start_tac Ep|nudp; exact Hik].
     - (* filter *)
       apply Hfilter in H as (p0 & k & Hk & Ht & Hwp & Hwk & Hpp & Hik). exists (CFilterP p0 k). split; [rewrite Ha, Hk; listeq|]. split; [now rewrite Ht|].
-      split; [cbn [wf]; auto|]. split; [start_tac Ep|nudp; cbn [inner]; destruct Hpp; auto].
+      split; [cbn [wfb wfkb]; auto|]. split; [start_tac Ep|nudp; cbn [inner]; destruct Hpp; auto].
     - (* bracket *)
       assert (Hml : brk_start st = false -> parse_multi_list' f p = Ok (t, st') ->
-                    exists c, toks st = flat c ++ toks st' /\ erase c = t /\ wf c /\ start_ok st c /\ (forall rbp, prec L rbp c)).
+                    exists c, toks st = flat c ++ toks st' /\ erase c = t /\ (wfb ext) c /\ start_ok st c /\ (forall rbp, prec L rbp c)).
       { intros Hb Hm. apply Hmlist in Hm as (e & es & Hm & Ht & Hwe & Hwes & Hpe & Hpes). exists (CMList e es).
         split; [rewrite flat_mlist, Ha, Hm; listeq|]. split; [now rewrite Ht|]. split; [apply wf_mlist; auto|].
-        split; [unfold start_ok; rewrite Ep, Hb; split; discriminate|]. nudp. apply inner_mlist. auto. }
-      assert (Hix : parse_index' f p = Ok (t, st') -> exists c, toks st = flat c ++ toks st' /\ erase c = t /\ wf c /\ start_ok st c /\ (forall rbp, prec L rbp c)).
+        split; [unfold start_ok; rewrite Ep, Hb; (split; [|split; [|split]]); intros Hst; try discriminate Hst; reflexivity|]. nudp. apply inner_mlist. auto. }
+      assert (Hix : parse_index' f p = Ok (t, st') -> exists c, toks st = flat c ++ toks st' /\ erase c = t /\ (wfb ext) c /\ start_ok st c /\ (forall rbp, prec L rbp c)).
       { intros Hm. apply Hindex in Hm as [(n0 & Hn & Ht)|(off & sl & k & Hs & Ht & Hwk & Hik)].
         - exists (CIndexP n0). split; [rewrite Ha, Hn; reflexivity|]. split; [now rewrite Ht|]. split; [exact I|].
-          split; [unfold start_ok; rewrite Ep; split; [discriminate|reflexivity]|nudp; exact I].
+          split; [unfold start_ok; rewrite Ep; (split; [|split; [|split]]); intros Hst; try discriminate Hst; reflexivity|nudp; exact I].
         - exists (CSliceP off sl k). split; [rewrite Ha, Hs; listeq|]. split; [now rewrite Ht|]. split; [exact Hwk|].
-          split; [unfold start_ok; rewrite Ep; split; [discriminate|reflexivity]|nudp; exact Hik]. }
+          split; [unfold start_ok; rewrite Ep; (split; [|split; [|split]]); intros Hst; try discriminate Hst; reflexivity|nudp; exact Hik]. }
       assert (Hb1 : brk_start st = match peek p 0 with TNumber _ | TColon => true | TStar => tok_is_rbracket (peek p 1) | _ => false end).
       { unfold brk_start. rewrite Ep, <- !Hc by discriminate. reflexivity. }
       destruct (peek p 0) eqn:Ep1; try (exact (Hix H)); try (exact (Hml Hb1 H)).
       destruct (tok_is_rbracket (peek p 1)) eqn:Er1; [|exact (Hml Hb1 H)].
       adv_in H. use_peek. apply Hwi in H as (k & Hk & Ht & Hwk & Hik). exists (CWildP k). split; [rewrite Ha, Ha0, Hk; reflexivity|]. split; [now rewrite Ht|].
-      split; [exact Hwk|]. split; [unfold start_ok; rewrite Ep; split; [discriminate|reflexivity]|nudp; exact Hik].
+      split; [exact Hwk|]. split; [unfold start_ok; rewrite Ep; (split; [|split; [|split]]); intros Hst; try discriminate Hst; reflexivity|nudp; exact Hik].
     - (* not *)
       run H n st2 Ee. apply Hexpr in Ee as (x & Hx & Hex & Hwx & _ & Hpx). injection H as <- <-. exists (CNot x). split; [rewrite Ha, Hx; reflexivity|].
       split; [cbn [erase]; now rewrite Hex|]. split; [exact Hwx|]. split; [start_tac Ep|nudp; exact Hpx].
     - (* current node *)
       injection H as <- <-. exists CCurrent. split; [rewrite Ha; reflexivity|]. split; [reflexivity|]. split; [exact I|]. split; [start_tac Ep|nudp; exact I].
+    - (* ampersand outside an argument list: only the code *)
+      unfold_P. destruct strict; cbn [negb] in *; dead. run H rhs st2 Ee. apply Hexpr in Ee as (x & Hx & Hex & Hwx & _ & Hpx). injection H as <- <-.
+      exists (CAmp x). split; [rewrite Ha, Hx; reflexivity|]. split; [cbn [erase]; now rewrite Hex|]. split; [cbn [wfb]; auto|].
+      split; [start_tac Ep|nudp; exact Hpx].
     - (* parentheses *)
       run H result st2 Ee. apply Hexpr in Ee as (x & Hx & Hex & Hwx & _ & Hpx). adv_in H. destruct (peek st2 0) eqn:Ep2; dead. use_peek.
       injection H as <- <-. exists (CParen x). split; [rewrite Ha, Hx, Ha0; cbn [flat]; listeq|]. split; [exact Hex|]. split; [exact Hwx|].
@@ -536,8 +570,8 @@ Section Sound.
       syntax tree of the grammar followed by the unconsumed rest (which starts with
       the end of input), and the tree it returns is the abstract tree of that syntax tree. *)
   Theorem ref_parser_sound fuel tokens t :
-    parse_tokens L STOP true fuel tokens = Ok t ->
-    exists c rest, map snd tokens = flat c ++ rest /\ erase c = t /\ wf c /\ prec L 0 c /\ hd TEof rest = TEof.
+    parse_tokens L STOP strict fuel tokens = Ok t ->
+    exists c rest, map snd tokens = flat c ++ rest /\ erase c = t /\ (wfb ext) c /\ prec L 0 c /\ hd TEof rest = TEof.
   Proof.
     unfold parse_tokens. destruct (expr' fuel 0 (mkPst tokens 0)) as [[r st]|?| | |] eqn:E; cbn [bind]; dead.
     destruct (peek st 0) eqn:Ep; dead. intros H. injection H as <-.
@@ -617,6 +651,9 @@ Proof.
     + (* call *)
       destruct args as [|[b x] r]; repeat no_eof_step; try (eapply flat_no_eof; exact H);
         (induction r as [|[b' y] r IHr]; repeat no_eof_step; try (eapply flat_no_eof; exact H); exact (IHr H)).
+    + (* call on an operand *)
+      destruct args as [|[b x] r]; repeat no_eof_step; try (eapply flat_no_eof; exact H);
+        (induction r as [|[b' y] r IHr]; repeat no_eof_step; try (eapply flat_no_eof; exact H); exact (IHr H)).
   - intros k H. destruct k; cbn [flatk] in H; repeat no_eof_step; eapply flat_no_eof; exact H.
 Qed.
 
@@ -651,4 +688,53 @@ Proof.
   - exfalso. rewrite app_nil_r in Hc. apply (flat_no_eof c). rewrite <- Hc. apply in_or_app. right. left. reflexivity.
   - cbn [hd] in Hhd. subst t0. symmetry in Hc. destruct (split_at_first_eof _ _ _ (flat_no_eof c) Hbody Hc) as [E ->].
     rewrite Hr, map_app. cbn [map snd]. now rewrite E.
+Qed.
+
+(** The same for the code (the model of parser.rs): an accepted expression lexes
+    to the flattening of a tree of the *extended* language [wfb true] — the
+    grammar plus [&x] as a prefix form, a call applied to an operand that
+    denotes a field, [&x] after a dot and a multi-select list after a projection —
+    and the returned tree is its abstract tree.  Nothing else is accepted: the
+    recorded deviation classes are the only non-sentences that compile. *)
+Theorem code_parse_sound s t : parse s = Ok t ->
+  exists tokens c, tokenize s = Ok tokens /\ map snd tokens = flat c ++ [TEof] /\ erase c = t /\ wfb true c /\ prec lbp 0 c.
+Proof.
+  unfold parse. destruct (tokenize s) as [tokens|?| | |] eqn:Et; cbn [bind]; try discriminate. intros H.
+  apply ref_parser_sound in H as (c & rest & Hc & Hec & Hwc & Hpc & Hhd).
+  apply tokenize_ends in Et as Hends. destruct Hends as (body & p & Hr & Hb).
+  exists tokens, c. split; [reflexivity|]. split; [|split; [exact Hec|split; [exact Hwc|exact Hpc]]].
+  assert (Hbody : ~ In TEof (map snd body)).
+  { intros Hin. apply in_map_iff in Hin as ([p0 t0] & E & Hin). rewrite Forall_forall in Hb. apply (Hb _ Hin). exact E. }
+  rewrite Hr, map_app in Hc. cbn [map snd] in Hc.
+  destruct rest as [|t0 r].
+  - exfalso. rewrite app_nil_r in Hc. apply (flat_no_eof c). rewrite <- Hc. apply in_or_app. right. left. reflexivity.
+  - cbn [hd] in Hhd. subst t0. symmetry in Hc. destruct (split_at_first_eof _ _ _ (flat_no_eof c) Hbody Hc) as [E ->].
+    rewrite Hr, map_app. cbn [map snd]. now rewrite E.
+Qed.
+
+(** every tree of the grammar is a tree of the extended language *)
+Lemma wfb_mono : forall c, wfb false c -> wfb true c
+with wfkb_mono : forall k, wfkb false k -> wfkb true k.
+Proof.
+  - intros c H. destruct c; cbn [wfb] in *; try exact I; try (apply wfb_mono; exact H);
+      try (apply wfkb_mono; exact H);
+      try (destruct H as [H1 H2]; split; [first [apply wfb_mono|apply wfkb_mono]; exact H1|]; try (first [apply wfb_mono|apply wfkb_mono]; exact H2)).
+    + (* multi-select list *)
+      induction es as [|x r IHr]; [exact I|]. destruct H2 as [Hx Hr]. split; [apply wfb_mono; exact Hx|exact (IHr Hr)].
+    + (* multi-select hash *)
+      destruct kv as [[q k] e]. destruct H as [H1 H2]. split; [apply wfb_mono; exact H1|].
+      induction kvs as [|[[q' k'] x] r IHr]; [exact I|]. destruct H2 as [Hx Hr]. split; [apply wfb_mono; exact Hx|exact (IHr Hr)].
+    + (* call *)
+      induction args as [|[b x] r IHr]; [exact I|]. destruct H as [Hx Hr]. split; [apply wfb_mono; exact Hx|exact (IHr Hr)].
+    + (* dot *)
+      destruct H2 as [H2 H3]. split; [apply wfb_mono; exact H2|apply dot_ok_x; exact H3].
+    + (* filter *)
+      destruct H2 as [H2 H3]. split; [apply wfb_mono; exact H2|apply wfkb_mono; exact H3].
+    + (* ampersand: not in the grammar *)
+      destruct H as [H _]. discriminate H.
+    + (* call on an operand: not in the grammar *)
+      destruct H as [H _]. discriminate H.
+  - intros k H. destruct k; cbn [wfkb] in *; [exact I| |]; destruct H as [H1 H2]; (split; [apply wfb_mono; exact H1|]).
+    + apply dot_ok_x; exact H2.
+    + apply brk_ok_x; exact H2.
 Qed.
